@@ -199,6 +199,14 @@ void body_io(void*) {
 
   w->ctx.construct();
   auto sched = w->ctx->get_scheduler();
+  if (usim_param_int("rerun", 0) && draw(2) == 0) {
+    // The loop is first run - and left again - by this thread (a stop request is already pending), then by the io thread:
+    // having been inside run() once must not make this thread "the io thread" for its later submissions and stop requests.
+    unifex::inplace_stop_source pre;
+    pre.request_stop();
+    w->ctx->run(pre.get_token());
+    usim_probe("loop run and left by the main thread first");
+  }
   std::thread io([w] {
     { usim::np_scope np; w->io_tid = usim_here(); }
     w->ctx->run(w->run_stop.get_token());
